@@ -1,9 +1,13 @@
 import Bgpfu.Drive.Framing
 import Bgpfu.Drive.Xml
 import Bgpfu.Drive.Session
+import Bgpfu.Drive.Run
 import Bgpfu.Drive.Daemon
 import Bgpfu.Drive.Writers
 import Bgpfu.Drive.Policy
+import Bgpfu.Drive.Builders
+import Bgpfu.Drive.LogTable
+import Bgpfu.Drive.Irr
 /-! `modeld`: one request per line on stdin, one answer per line on stdout.
 A line is `<op> <arg>…` separated by single spaces; unknown ops / malformed args answer `bad-op`. -/
 
@@ -13,9 +17,13 @@ def dispatch (ws : List String) : String :=
     | "frame" :: rest => Framing.drive rest
     | "xml" :: rest => Xml.drive rest
     | "sess" :: rest => Session.drive rest
+    | "run" :: rest => Run.drive rest
     | "daemon" :: rest => Daemon.drive rest
     | "ser" :: rest => Writers.drive rest
     | "plan" :: rest => Policy.drive rest
+    | "build" :: rest => Builders.drive rest
+    | "logs" :: rest => LogTable.drive rest
+    | "irr" :: rest => Irr.drive rest
     | _ => none
   r.getD "bad-op"
 
